@@ -28,6 +28,9 @@ from . import executor as X
 
 
 CAP_CUTS = set()    # (which, constant) of every cap cut taken in this process (reported with the evidence)
+# the only cap that is cut rather than explored: nonshear.Q = minimum(h*omega/(k*T), 1e3) (beyond it exp(-Q) is exactly zero; that
+# region is decided by the QF_FP kernel obligations of C12).  Every other numpy.minimum / maximum on symbolic values is explored.
+CAP_ALLOWED = {("minimum", 1000.0)}
 
 
 def has_sym(a):
@@ -112,8 +115,8 @@ class NumpyProxy(types.ModuleType):
 
     # -- caps ----------------------------------------------------------------
     def _cap(self, a, b, which):
-        """numpy.minimum / maximum.  A symbolic value against a numeric constant is a *cap*: the symbolic side is returned and the
-        cut `x <= c` (resp. `x >= c`) is recorded as a restriction of the claim -- no fork per array element."""
+        """numpy.minimum / maximum.  For the caps listed in CAP_ALLOWED the symbolic side is returned and the cut `x <= c` is recorded
+        as a restriction of the claim (no fork per array element); every other case is decided / forked by the executor."""
         if not (has_sym(a) or has_sym(b)):
             return getattr(_np, which)(a, b)
         A, B = _np.broadcast_arrays(_np.asarray(a, dtype=object), _np.asarray(b, dtype=object))
@@ -126,14 +129,15 @@ class NumpyProxy(types.ModuleType):
                 fo[i] = x if ((nx <= ny) == (which == "minimum")) else y
                 if not isinstance(fo[i], Sym):
                     fo[i] = Sym.of(fo[i])
-            elif nx is None and ny is not None:
-                fo[i] = x
-                CAP_CUTS.add((which, float(ny)))
-            elif ny is None and nx is not None:
-                fo[i] = y
-                CAP_CUTS.add((which, float(nx)))
+            elif (nx is None) != (ny is None) and (which, float(ny if nx is None else nx)) in CAP_ALLOWED:
+                fo[i] = x if nx is None else y
+                CAP_CUTS.add((which, float(ny if nx is None else nx)))
             else:
-                raise SymError("numpy.%s of two symbolic values is not modelled" % which)
+                # any other min / max is a data-dependent choice of the analysed code: decided by the solver, forked when both
+                # outcomes are feasible
+                d = Sym.of(x) - Sym.of(y)
+                x_wins = _decide_cond(X.cond_rel("<=" if which == "minimum" else ">=", d))
+                fo[i] = Sym.of(x) if x_wins else Sym.of(y)
         return out if out.shape else out[()]
 
     def minimum(self, a, b):
